@@ -63,7 +63,7 @@ func c12Body(r *simcore.Run) {
 				r.Yield("c12-stmt")
 				if r.Pct(35) {
 					// multi-statement transaction
-					tx, err := s.eng.NewTx(r.Ctx(), sql.DefaultTxOptions())
+					tx, err := s.eng.NewTx(r.Ctx(), sql.DefaultTxOptions().WithExplicitClose(true))
 					if err != nil {
 						continue
 					}
